@@ -64,6 +64,7 @@ class Layer:
         self.kind = kind
         self.default = default
         self.units: dict[int, object] = {}
+        self.zero_phys = False  # store zeros (not garbage) for non-data sectors inside allocated units
 
     @property
     def nunits(self) -> int:
@@ -92,6 +93,8 @@ class Layer:
         """What a writer stores on disk for this sector inside an allocated unit."""
         if self.state(sector) == D:
             return sector_bytes(self.tag, sector, self.kind)
+        if self.zero_phys:
+            return b"\x00" * SECTOR
         return sector_bytes(self.tag ^ GARBAGE, sector, self.kind)
 
     def phys_bytes(self, first_sector: int, nsectors: int) -> bytes:
